@@ -36,7 +36,34 @@ def run(ctx):
             ctx.fail(f"C07/{j['name']}/same-seed-differs-in-same-process", "two runs with the same seed differ after drawing from the global generators in between", "S-rel", {"job": oracles.job_key(j), "where": first_diff(r1["a"], r1["b"])})
         elif r1["a"] != r2["a"]:
             ctx.fail(f"C07/{j['name']}/same-seed-differs-across-processes", "two runs with the same seed differ between processes", "S-rel", {"job": oracles.job_key(j), "where": first_diff(r1["a"], r2["a"])})
+    hashseed_runs(ctx)
     ctx.sample({"job": oracles.job_key(js[0]), "A==B": ab[0]["a"] == ab[0]["b"], "A==C": ab[0]["a"] == c[0]["a"]})
+
+
+def hashseed_runs(ctx):
+    """fresh interpreters with different PYTHONHASHSEED values (forked workers share their parent's salt): a permutation task over string items whose objective
+    decodes through transform_solution, a few classes; the digests of everything the run reports must agree"""
+    import json
+    import os
+    import subprocess
+    import sys
+    from .. import jobs as _jobs
+    names = [n for n in _jobs.baseline_pairs().get("perm", []) if n in optimizers.names()]
+    picked = ctx.rng.sample(names, min(len(names), 3 if not ctx.thorough else 12))
+    for name in picked:
+        seed = ctx.rng.choice([1, 42, 12345])
+        outs = []
+        for salt in ("1", "2", "77"):
+            env = dict(os.environ, PYTHONHASHSEED=salt)
+            p = subprocess.run([sys.executable, "-m", "pvh.hashseed_probe", name, str(seed)], env=env, capture_output=True, text=True, timeout=300)
+            line = next((l for l in p.stdout.splitlines() if l.startswith("PROBE ")), None)
+            outs.append(json.loads(line[6:]) if line else {"raised": "no-output", "stderr": p.stderr[-300:]})
+        ctx.case(("hashseed", name, seed), nontrivial=all("digest" in o for o in outs), kind="fresh-interpreters-with-different-hash-salts:" + ("ok" if all("digest" in o for o in outs) else "raised"))
+        if any(o.get("raised") == "no-output" for o in outs):
+            raise OSError(f"hash-salt probe produced no output: {outs}")
+        if len({json.dumps(o, sort_keys=True) for o in outs}) != 1:
+            ctx.fail(f"C07/{name}/same-seed-differs-between-interpreters-with-different-hash-salts", f"PYTHONHASHSEED 1 / 2 / 77 -> {outs}", "S-rel",
+                     {"optimizer": name, "seed": seed, "command": f"PYTHONHASHSEED=<1|2|77> python -m pvh.hashseed_probe {name} {seed}"})
 
 
 def first_diff(a, b):
